@@ -12,6 +12,7 @@ package main
 
 import (
 	"bytes"
+	"crypto/elliptic"
 	"encoding/hex"
 	"fmt"
 	"io"
@@ -52,6 +53,67 @@ func (g *gen) add(term string, desc interface{}, nontrivial bool) {
 	if nontrivial && g.id%53 == 0 {
 		g.rep.Sample(desc)
 	}
+}
+
+// ---------------------------------------------------------------- readers
+
+// The legal behaviours of an io.Reader every reader-based helper is driven
+// with: everything at once, one byte per call, half of what is asked, the last
+// bytes returned TOGETHER with io.EOF (in one chunk or after single bytes),
+// and calls that return (0, nil) before delivering anything (the last one only
+// for UnmarshalFrom: util/encoding treats an empty read as a stalled reader,
+// which kyber's own tests pin down, so nothing is asserted about it there).
+var readerModes = []string{"plain", "one-byte", "half", "data+EOF", "one-byte,data+EOF", "empty-reads"}
+
+type stutterReader struct {
+	r io.Reader
+	k int
+}
+
+func (s *stutterReader) Read(p []byte) (int, error) {
+	s.k++
+	if s.k%2 == 1 && len(p) > 0 {
+		return 0, nil
+	}
+	if len(p) > 5 {
+		p = p[:5]
+	}
+	return s.r.Read(p)
+}
+
+// eofReader delivers at most chunk bytes per call and reports io.EOF in the SAME
+// call that delivers the last byte (no read-ahead, unlike iotest.DataErrReader,
+// so the bytes left in the underlying reader stay observable).
+type eofReader struct {
+	r     *bytes.Reader
+	chunk int
+}
+
+func (e *eofReader) Read(p []byte) (int, error) {
+	if len(p) > e.chunk {
+		p = p[:e.chunk]
+	}
+	n, err := e.r.Read(p)
+	if err == nil && e.r.Len() == 0 {
+		err = io.EOF
+	}
+	return n, err
+}
+
+func wrapReader(mode int, under *bytes.Reader) io.Reader {
+	switch mode {
+	case 1:
+		return iotest.OneByteReader(under)
+	case 2:
+		return iotest.HalfReader(under)
+	case 3:
+		return &eofReader{r: under, chunk: 1 << 20}
+	case 4:
+		return &eofReader{r: under, chunk: 1}
+	case 5:
+		return &stutterReader{r: under}
+	}
+	return under
 }
 
 // ---------------------------------------------------------------- scalars
@@ -216,14 +278,12 @@ func (g *gen) streamCases(in *sc.Inst, r *vh.Rng) {
 		input = append(append([]byte{}, want...), r.Bytes(r.Intn(2)*r.Intn(40))...)
 	}
 	under := bytes.NewReader(input)
-	var rd io.Reader = under
-	mode := "plain"
-	switch r.Intn(3) {
-	case 1:
-		rd, mode = iotest.OneByteReader(under), "one-byte"
-	case 2:
-		rd, mode = iotest.HalfReader(under), "half"
+	mi := r.Intn(len(readerModes))
+	if (mi == 3 || mi == 4) && !short { // the last byte needed arrives together with io.EOF
+		input = append([]byte{}, want...)
+		under = bytes.NewReader(input)
 	}
+	rd, mode := wrapReader(mi, under), readerModes[mi]
 	t := in.Mk()
 	n, err = t.UnmarshalFrom(rd)
 	ok := err == nil
@@ -270,23 +330,23 @@ func (g *gen) streamCases(in *sc.Inst, r *vh.Rng) {
 	} else if r.Chance(30) {
 		hin += hex.EncodeToString(r.Bytes(1 + r.Intn(5)))
 	}
-	t2, err := kenc.StringHexToScalar(grp, hin)
+	// through an io.Reader in one of the legal delivery modes (the model says the
+	// outcome does not depend on how the reader chops the string)
+	hm := r.Intn(5)
+	t2, err := kenc.ReadHexScalar(grp, wrapReader(hm, bytes.NewReader([]byte(hin))))
 	ok = err == nil
 	reenc = nil
 	if ok {
 		reenc = sc.BytesOf(t2)
 	}
-	replay = map[string]string{"impl": in.Name, "value": v.String(), "hex": hin, "err": fmt.Sprint(err)}
+	replay = map[string]string{"impl": in.Name, "value": v.String(), "hex": hin, "reader": readerModes[hm], "err": fmt.Sprint(err)}
 	if hshort == ok || (ok && (string(reenc) != string(want) || !t2.Equal(s))) {
+		g.rep.Fail("enc/hex/ReadHexScalar/"+readerModes[hm], "ReadHexScalar differs from UnmarshalBinary of the decoded hex: "+fmt.Sprint(err), replay)
+	}
+	if t3, err := kenc.StringHexToScalar(grp, hin); hshort == (err == nil) || (err == nil && string(sc.BytesOf(t3)) != string(want)) {
 		g.rep.Fail(key+"/hex/read", "StringHexToScalar differs from UnmarshalBinary of the decoded hex", replay)
 	}
-	if !hshort {
-		// the same through an io.Reader that delivers the string in pieces
-		t3, err := kenc.ReadHexScalar(grp, iotest.OneByteReader(strings.NewReader(hin)))
-		if err != nil || string(sc.BytesOf(t3)) != string(want) {
-			g.rep.Fail("enc/hex/ReadHexScalar/chunked-reader", fmt.Sprintf("ReadHexScalar fails on a reader that delivers the hex string in pieces: %v", err), replay)
-		}
-	}
+	g.rep.Dist("hex-reader/" + readerModes[hm])
 	g.add(fmt.Sprintf("CHexR %d %s %s %s %s", g.id, in.Coq(), vh.CoqBytes([]byte(hin)), vh.CoqBool(ok), vh.CoqBytes(reenc)), replay, !hshort)
 }
 
@@ -473,7 +533,7 @@ func varPoint(G *grp, r *vh.Rng) *pexp {
 	return &pexp{op: "var", pt: pt, d: r.BigBelow(G.q), how: how}
 }
 
-func pool(G *grp, r *vh.Rng) []*pexp {
+func pool(G *grp, r *vh.Rng, forced *pexp) []*pexp {
 	q := G.q
 	k := r.EdgeScalar(q)
 	k1 := r.EdgeScalar(q)
@@ -512,7 +572,14 @@ func pool(G *grp, r *vh.Rng) []*pexp {
 		mul(modq(q, new(big.Int).Sub(q, one)), B), neg(B), sub(null(), B),
 		mul(k1, X), mul(modq(q, new(big.Int).Mul(k, k1)), B),
 	}
-	if H := varPoint(G, r); H != nil {
+	H := forced
+	if H == nil {
+		H = varPoint(G, r)
+	}
+	if H != nil {
+		if forced != nil { // make sure the crafted point itself and its closest relatives are in
+			out = append(out, H, neg(H), mulI(1, H), sub(add(H, B), B))
+		}
 		cands = append(cands, H, add(H, null()), sub(add(H, B), B), add(H, H), mulI(2, H), mul(k, H),
 			add(mul(k1, H), mul(modq(q, new(big.Int).Sub(k, k1)), H)), neg(mul(modq(q, new(big.Int).Sub(q, k)), H)),
 			add(H, neg(H)), mul(q, H))
@@ -525,9 +592,105 @@ func pool(G *grp, r *vh.Rng) []*pexp {
 	return out
 }
 
-func (g *gen) pointPool(G *grp, r *vh.Rng) {
+// pointBattery evaluates clauses (a), (b), (d), (e) of the property on one point
+// and returns its encoding.
+func (g *gen) pointBattery(G *grp, p kyber.Point, path string, r *vh.Rng) ([]byte, bool) {
+	key := "enc/point/" + G.name
+	replay := map[string]string{"group": G.name, "path": path}
+	// (e) encoding does not change the value: clone first, compare afterwards
+	var before kyber.Point
+	vh.Try(func() { before = p.Clone() })
+	b, err := p.MarshalBinary()
+	if err != nil {
+		g.rep.Fail(key+"/MarshalBinary/error", err.Error(), replay)
+		return nil, false
+	}
+	replay["bytes"] = vh.Hex(b)
+	// (a) lengths
+	if len(b) != p.MarshalSize() || len(b) != G.g.PointLen() {
+		g.rep.Fail(key+"/length", fmt.Sprintf("len %d, MarshalSize %d, PointLen %d", len(b), p.MarshalSize(), G.g.PointLen()), replay)
+	}
+	b2, _ := p.MarshalBinary()
+	if string(b2) != string(b) {
+		g.rep.Fail(key+"/MarshalBinary/not-repeatable", "two MarshalBinary calls differ", replay)
+	}
+	if before != nil && (!before.Equal(p) || !p.Equal(before)) {
+		g.rep.Fail(key+"/value-changed-by-encoding", "the point is no longer Equal to its clone taken before MarshalBinary", replay)
+	}
+	if before != nil {
+		bb, _ := before.MarshalBinary()
+		if string(bb) != string(b) {
+			g.rep.Fail(key+"/clone-encodes-differently", "clone and original encode differently", replay)
+		}
+	}
+	// (b) decode succeeds, Equal, re-encode identical
+	t := G.g.Point()
+	if err := t.UnmarshalBinary(append([]byte{}, b...)); err != nil {
+		g.rep.Fail(key+"/UnmarshalBinary/own-encoding-rejected", err.Error(), replay)
+	} else {
+		if !t.Equal(p) || !p.Equal(t) {
+			g.rep.Fail(key+"/roundtrip-not-Equal", "decode(encode(P)) is not Equal to P", replay)
+		}
+		if rb, _ := t.MarshalBinary(); string(rb) != string(b) {
+			replay["reenc"] = vh.Hex(rb)
+			g.rep.Fail(key+"/reencode-differs", "re-encoding is not byte-identical", replay)
+		}
+	}
+	// (d) stream wrappers and hex helpers
+	var buf bytes.Buffer
+	pre := r.Bytes(r.Intn(8))
+	buf.Write(pre)
+	n, err := p.MarshalTo(&buf)
+	if err != nil || n != len(b) || string(buf.Bytes()) != string(pre)+string(b) {
+		g.rep.Fail(key+"/MarshalTo", "MarshalTo does not append exactly MarshalBinary", replay)
+	}
+	tail := r.Bytes(r.Intn(2) * 5)
+	under := bytes.NewReader(append(append([]byte{}, b...), tail...))
+	um := r.Intn(len(readerModes))
+	if um == 3 || um == 4 {
+		tail = nil
+		under = bytes.NewReader(append([]byte{}, b...))
+	}
+	t2 := G.g.Point()
+	n, err = t2.UnmarshalFrom(wrapReader(um, under))
+	if err != nil || n != len(b) || under.Len() != len(tail) || !t2.Equal(p) {
+		g.rep.Fail(key+"/UnmarshalFrom/"+readerModes[um], fmt.Sprintf("UnmarshalFrom: n=%d err=%v left=%d", n, err, under.Len()), replay)
+	}
+	g.rep.Dist("point-reader/" + readerModes[um])
+	if len(b) > 0 {
+		t3 := G.g.Point()
+		cut := r.Intn(len(b))
+		n, err = t3.UnmarshalFrom(wrapReader(r.Intn(len(readerModes)), bytes.NewReader(b[:cut])))
+		if err == nil || n != cut {
+			g.rep.Fail(key+"/UnmarshalFrom/short-reader", fmt.Sprintf("short reader: n=%d err=%v", n, err), replay)
+		}
+	}
+	hs, err := kenc.PointToStringHex(G.g, p)
+	var hb bytes.Buffer
+	err2 := kenc.WriteHexPoint(&hb, p)
+	if err != nil || err2 != nil || hs != hex.EncodeToString(b) || hb.String() != hs {
+		g.rep.Fail(key+"/hex/write", "hex helpers do not carry exactly the MarshalBinary bytes", replay)
+	}
+	if t4, err := kenc.StringHexToPoint(G.g, hs); err != nil || !t4.Equal(p) {
+		g.rep.Fail(key+"/hex/read", fmt.Sprintf("StringHexToPoint: %v", err), replay)
+	} else if rb, _ := t4.MarshalBinary(); string(rb) != string(b) {
+		g.rep.Fail(key+"/hex/read", "hex round trip re-encodes differently", replay)
+	}
+	hm := 1 + r.Intn(4)
+	if t5, err := kenc.ReadHexPoint(G.g, wrapReader(hm, bytes.NewReader([]byte(hs)))); err != nil || !t5.Equal(p) {
+		replay["reader"] = readerModes[hm]
+		g.rep.Fail("enc/hex/ReadHexPoint/"+readerModes[hm], fmt.Sprintf("ReadHexPoint fails on a legal reader (%s): %v", readerModes[hm], err), replay)
+	} else if rb, _ := t5.MarshalBinary(); string(rb) != string(b) {
+		g.rep.Fail("enc/hex/ReadHexPoint/"+readerModes[hm], "ReadHexPoint re-encodes differently", replay)
+	}
+	return b, true
+}
+
+func (g *gen) pointPool(G *grp, r *vh.Rng, exprs []*pexp) {
 	g.id++
-	exprs := pool(G, r)
+	if exprs == nil {
+		exprs = pool(G, r, nil)
+	}
 	key := "enc/point/" + G.name
 	type ent struct {
 		e   *pexp
@@ -543,86 +706,9 @@ func (g *gen) pointPool(G *grp, r *vh.Rng) {
 			g.rep.Dist("unsupported/" + G.name + ": " + firstLine(msg))
 			continue
 		}
-		replay := map[string]string{"group": G.name, "path": e.String()}
-		// (e) encoding does not change the value: clone first, compare afterwards
-		var before kyber.Point
-		vh.Try(func() { before = p.Clone() })
-		b, err := p.MarshalBinary()
-		if err != nil {
-			g.rep.Fail(key+"/MarshalBinary/error", err.Error(), replay)
+		b, ok := g.pointBattery(G, p, e.String(), r)
+		if !ok {
 			continue
-		}
-		replay["bytes"] = vh.Hex(b)
-		// (a) lengths
-		if len(b) != p.MarshalSize() || len(b) != G.g.PointLen() {
-			g.rep.Fail(key+"/length", fmt.Sprintf("len %d, MarshalSize %d, PointLen %d", len(b), p.MarshalSize(), G.g.PointLen()), replay)
-		}
-		b2, _ := p.MarshalBinary()
-		if string(b2) != string(b) {
-			g.rep.Fail(key+"/MarshalBinary/not-repeatable", "two MarshalBinary calls differ", replay)
-		}
-		if before != nil && (!before.Equal(p) || !p.Equal(before)) {
-			g.rep.Fail(key+"/value-changed-by-encoding", "the point is no longer Equal to its clone taken before MarshalBinary", replay)
-		}
-		if before != nil {
-			bb, _ := before.MarshalBinary()
-			if string(bb) != string(b) {
-				g.rep.Fail(key+"/clone-encodes-differently", "clone and original encode differently", replay)
-			}
-		}
-		// (b) decode succeeds, Equal, re-encode identical
-		t := G.g.Point()
-		if err := t.UnmarshalBinary(append([]byte{}, b...)); err != nil {
-			g.rep.Fail(key+"/UnmarshalBinary/own-encoding-rejected", err.Error(), replay)
-		} else {
-			if !t.Equal(p) || !p.Equal(t) {
-				g.rep.Fail(key+"/roundtrip-not-Equal", "decode(encode(P)) is not Equal to P", replay)
-			}
-			if rb, _ := t.MarshalBinary(); string(rb) != string(b) {
-				replay["reenc"] = vh.Hex(rb)
-				g.rep.Fail(key+"/reencode-differs", "re-encoding is not byte-identical", replay)
-			}
-		}
-		// (d) stream wrappers and hex helpers
-		var buf bytes.Buffer
-		pre := r.Bytes(r.Intn(8))
-		buf.Write(pre)
-		n, err := p.MarshalTo(&buf)
-		if err != nil || n != len(b) || string(buf.Bytes()) != string(pre)+string(b) {
-			g.rep.Fail(key+"/MarshalTo", "MarshalTo does not append exactly MarshalBinary", replay)
-		}
-		tail := r.Bytes(r.Intn(2) * 5)
-		under := bytes.NewReader(append(append([]byte{}, b...), tail...))
-		var rd io.Reader = under
-		if r.Bool() {
-			rd = iotest.OneByteReader(under)
-		}
-		t2 := G.g.Point()
-		n, err = t2.UnmarshalFrom(rd)
-		if err != nil || n != len(b) || under.Len() != len(tail) || !t2.Equal(p) {
-			g.rep.Fail(key+"/UnmarshalFrom", fmt.Sprintf("UnmarshalFrom: n=%d err=%v left=%d", n, err, under.Len()), replay)
-		}
-		if len(b) > 0 {
-			t3 := G.g.Point()
-			cut := r.Intn(len(b))
-			n, err = t3.UnmarshalFrom(bytes.NewReader(b[:cut]))
-			if err == nil || n != cut {
-				g.rep.Fail(key+"/UnmarshalFrom/short-reader", fmt.Sprintf("short reader: n=%d err=%v", n, err), replay)
-			}
-		}
-		hs, err := kenc.PointToStringHex(G.g, p)
-		var hb bytes.Buffer
-		err2 := kenc.WriteHexPoint(&hb, p)
-		if err != nil || err2 != nil || hs != hex.EncodeToString(b) || hb.String() != hs {
-			g.rep.Fail(key+"/hex/write", "hex helpers do not carry exactly the MarshalBinary bytes", replay)
-		}
-		if t4, err := kenc.StringHexToPoint(G.g, hs); err != nil || !t4.Equal(p) {
-			g.rep.Fail(key+"/hex/read", fmt.Sprintf("StringHexToPoint: %v", err), replay)
-		} else if rb, _ := t4.MarshalBinary(); string(rb) != string(b) {
-			g.rep.Fail(key+"/hex/read", "hex round trip re-encodes differently", replay)
-		}
-		if t5, err := kenc.ReadHexPoint(G.g, iotest.OneByteReader(strings.NewReader(hs))); err != nil || !t5.Equal(p) {
-			g.rep.Fail("enc/hex/ReadHexPoint/chunked-reader", fmt.Sprintf("ReadHexPoint fails on a reader that delivers the hex string in pieces: %v", err), replay)
 		}
 		ents = append(ents, ent{e: e, p: p, b: b, cls: -1})
 	}
@@ -661,6 +747,254 @@ func (g *gen) pointPool(G *grp, r *vh.Rng) {
 	g.rep.DistN("point-values/"+G.name, len(ents))
 	g.add(fmt.Sprintf("CPoints %d %s %d %s", g.id, vh.CoqZ(G.q), G.g.PointLen(), vh.CoqList(items)),
 		map[string]interface{}{"group": G.name, "paths": paths}, len(ents) > 1)
+}
+
+// ---------------------------------------------------------------- crafted coordinates
+
+// Points whose affine coordinates have leading zero bytes (any number of
+// them) are ordinary group elements that random sampling never meets
+// (probability 2^-8 per byte).  For the codecs whose layout is a plain
+// fixed-width coordinate list the harness computes such points itself (from
+// the public curve equations), obtains them from the implementation by
+// decoding their canonical encoding, and demands the canonical bytes back -
+// directly, after Neg, and after arithmetic that leaves them in non-normalised
+// internal coordinates.
+
+type crafted struct {
+	canon     []byte
+	coords    []*big.Int // what the Coq layout model encodes
+	negCanon  []byte
+	negCoords []*big.Int
+	prefix    []byte
+	w         int
+	le        bool
+	z         int
+}
+
+func bigDec(s string) *big.Int {
+	v, ok := new(big.Int).SetString(s, 10)
+	if !ok {
+		panic("bad number")
+	}
+	return v
+}
+
+var (
+	bn256P = bigDec("65000549695646603732796438742359905742825358107623003571877145026864184071783")
+	bn254P = bigDec("21888242871839275222246405745257275088696311157297823662689037894645226208583")
+	qr512P = bigDec("10198267722357351868598076141027380280417188309231803909918464305012113541414604537422741096561285049775792035177041672305646773132014126091142862443826263")
+	edP    = new(big.Int).Sub(new(big.Int).Lsh(big.NewInt(1), 255), big.NewInt(19))
+	edD    = func() *big.Int {
+		d := new(big.Int).ModInverse(big.NewInt(121666), edP)
+		d.Mul(d, big.NewInt(-121665))
+		return d.Mod(d, edP)
+	}()
+)
+
+// a value of exactly w-z significant bytes (z leading zero bytes in a w-byte field)
+func withLeadingZeros(w, z int, r *vh.Rng) *big.Int {
+	if z >= w {
+		return new(big.Int)
+	}
+	lo := new(big.Int).Lsh(big.NewInt(1), uint(8*(w-1-z)))
+	span := new(big.Int).Mul(lo, big.NewInt(255))
+	v := r.BigBelow(span)
+	if r.Chance(20) { // the smallest values of the range
+		v.SetInt64(int64(r.Intn(16)))
+	}
+	return v.Add(v, lo)
+}
+
+func fixed(w int, v *big.Int, le bool) []byte {
+	b := v.FillBytes(make([]byte, w))
+	if le {
+		sc.Rev(b)
+	}
+	return b
+}
+
+// short Weierstrass y^2 = x^3 + a*x + b over p: a point whose x has z leading zero bytes
+func craftWeierstrass(p, a, b *big.Int, prefix []byte, z int, r *vh.Rng) *crafted {
+	x := withLeadingZeros(32, z, r)
+	for try := 0; try < 400; try++ {
+		rhs := new(big.Int).Mul(x, x)
+		rhs.Add(rhs, a).Mul(rhs, x).Add(rhs, b).Mod(rhs, p)
+		if y := new(big.Int).ModSqrt(rhs, p); y != nil && x.Cmp(p) < 0 {
+			if r.Bool() {
+				y.Sub(p, y).Mod(y, p)
+			}
+			ny := new(big.Int).Sub(p, y)
+			ny.Mod(ny, p)
+			mk := func(yy *big.Int) []byte {
+				return append(append(append([]byte{}, prefix...), fixed(32, x, false)...), fixed(32, yy, false)...)
+			}
+			return &crafted{canon: mk(y), coords: []*big.Int{x, y}, negCanon: mk(ny), negCoords: []*big.Int{x, ny},
+				prefix: prefix, w: 32, z: z}
+		}
+		x = new(big.Int).Add(x, big.NewInt(1))
+	}
+	return nil
+}
+
+func craft(G *grp, r *vh.Rng) *crafted {
+	zs := []int{1, 2, 2, 3, 4, 7, 8, 15, 16, 23, 29, 30, 31}
+	z := zs[r.Intn(len(zs))]
+	switch G.name {
+	case "p256":
+		c := elliptic.P256().Params()
+		return craftWeierstrass(c.P, big.NewInt(-3), c.B, []byte{4}, z, r)
+	case "bn256.G1":
+		return craftWeierstrass(bn256P, big.NewInt(0), big.NewInt(3), nil, z, r)
+	case "bn254.G1":
+		return craftWeierstrass(bn254P, big.NewInt(0), big.NewInt(3), nil, z, r)
+	case "qr512": // squares of short integers: residues with many leading zero bytes
+		zz := []int{1, 2, 3, 8, 16, 31, 32, 33, 48, 60, 62, 63}[r.Intn(12)]
+		lo := new(big.Int).Lsh(big.NewInt(1), uint(8*(63-zz)))
+		s := new(big.Int).Sqrt(lo)
+		s.Add(s, big.NewInt(int64(1+r.Intn(200))))
+		v := new(big.Int).Mul(s, s)
+		if v.BitLen() > 8*(64-zz) || v.Cmp(qr512P) >= 0 {
+			return nil
+		}
+		return &crafted{canon: fixed(64, v, false), coords: []*big.Int{v}, w: 64, z: zz}
+	case "edwards25519", "edwards25519vartime", "edwards25519vartime.ext":
+		y := withLeadingZeros(32, z, r)
+		for try := 0; try < 400; try++ {
+			y2 := new(big.Int).Mul(y, y)
+			u := new(big.Int).Sub(y2, big.NewInt(1))
+			v := new(big.Int).Mul(edD, y2)
+			v.Add(v, big.NewInt(1)).Mod(v, edP)
+			u.Mul(u, new(big.Int).ModInverse(v, edP)).Mod(u, edP)
+			if x := new(big.Int).ModSqrt(u, edP); x != nil && x.Sign() != 0 {
+				if r.Bool() {
+					x.Sub(edP, x)
+				}
+				val := func(xx *big.Int) *big.Int {
+					return new(big.Int).Add(y, new(big.Int).Lsh(big.NewInt(int64(xx.Bit(0))), 255))
+				}
+				nx := new(big.Int).Sub(edP, x)
+				return &crafted{canon: fixed(32, val(x), true), coords: []*big.Int{val(x)},
+					negCanon: fixed(32, val(nx), true), negCoords: []*big.Int{val(nx)}, w: 32, le: true, z: z}
+			}
+			y = new(big.Int).Add(y, big.NewInt(1))
+		}
+	}
+	return nil
+}
+
+func (c *crafted) coq(id int, coords []*big.Int, b []byte) string {
+	bo := 1
+	if c.le {
+		bo = 0
+	}
+	var cs []string
+	for _, v := range coords {
+		cs = append(cs, vh.CoqZ(v))
+	}
+	return fmt.Sprintf("CCoord %d %d %d %s %s %s", id, bo, c.w, vh.CoqBytes(c.prefix), vh.CoqList(cs), vh.CoqBytes(b))
+}
+
+// prime-order groups in which a decoded point is certainly a group element
+// with a logarithm (cofactor 1 / validated membership): it may join a pool
+func poolSafe(G *grp) bool {
+	return G.name == "p256" || G.name == "bn256.G1" || G.name == "bn254.G1" || G.name == "qr512"
+}
+
+func (g *gen) craftedCase(G *grp, r *vh.Rng) {
+	c := craft(G, r)
+	if c == nil {
+		return
+	}
+	key := "enc/point/" + G.name + "/leading-zero-coordinate"
+	replay := map[string]string{"group": G.name, "canonical": vh.Hex(c.canon), "leading_zero_bytes": fmt.Sprint(c.z)}
+	t := G.g.Point()
+	var err error
+	if pan, _ := vh.Try(func() { err = t.UnmarshalBinary(append([]byte{}, c.canon...)) }); pan || err != nil {
+		// the implementation may refuse elements outside its subgroup: no claim
+		g.rep.Dist("crafted-not-accepted/" + G.name)
+		return
+	}
+	g.id++
+	b, ok := g.pointBattery(G, t, fmt.Sprintf("Decode(canonical encoding, coordinate with %d leading zero bytes)", c.z), r)
+	if !ok {
+		return
+	}
+	if string(b) != string(c.canon) {
+		replay["got"] = vh.Hex(b)
+		g.rep.Fail(key+"/reencode", "a point decoded from its canonical encoding encodes to different bytes", replay)
+	}
+	g.rep.Dist("crafted/" + G.name)
+	g.rep.Dist(fmt.Sprintf("crafted-leading-zero-bytes/%d", c.z))
+	g.add(c.coq(g.id, c.coords, b), replay, true)
+	// the same element after arithmetic (non-normalised internal coordinates)
+	for _, alt := range []struct {
+		how string
+		f   func() kyber.Point
+	}{
+		{"Mul(1,P)", func() kyber.Point { return G.g.Point().Mul(scalarOf(G.g, big.NewInt(1)), t) }},
+		{"Sub(Add(P,B),B)", func() kyber.Point {
+			B := G.g.Point().Base()
+			return G.g.Point().Sub(G.g.Point().Add(t, B), B)
+		}},
+		{"Neg(Neg(P))", func() kyber.Point { return G.g.Point().Neg(G.g.Point().Neg(t)) }},
+	} {
+		var pt kyber.Point
+		if pan, _ := vh.Try(func() { pt = alt.f() }); pan || pt == nil {
+			continue
+		}
+		if ab, err := pt.MarshalBinary(); err != nil || string(ab) != string(c.canon) {
+			replay["path"], replay["got"] = alt.how, vh.Hex(ab)
+			g.rep.Fail(key+"/after-arithmetic", "the same element reached through arithmetic encodes differently", replay)
+		}
+	}
+	if c.negCanon != nil {
+		var nb []byte
+		vh.Try(func() { nb, _ = G.g.Point().Neg(t).MarshalBinary() })
+		if string(nb) != string(c.negCanon) {
+			replay["got"], replay["want"] = vh.Hex(nb), vh.Hex(c.negCanon)
+			g.rep.Fail(key+"/neg", "Neg(P) does not encode to the canonical encoding of the negated coordinates", replay)
+		}
+		g.id++
+		g.add(c.coq(g.id, c.negCoords, nb), replay, true)
+	}
+	if poolSafe(G) {
+		H := &pexp{op: "var", pt: t, d: r.BigBelow(G.q), how: fmt.Sprintf("crafted,%d leading zero bytes", c.z)}
+		g.pointPool(G, r, pool(G, r, H))
+	}
+}
+
+// multiples i*B reached by repeated addition; those whose encoding has a zero
+// byte at the start of a 16-byte aligned field (a coordinate with a leading
+// zero byte, in every group, for every codec) and a few others get the full
+// battery and a pool together with Mul(i, B)
+func (g *gen) scanCase(G *grp, r *vh.Rng, n int) {
+	var acc, B kyber.Point
+	if pan, _ := vh.Try(func() { B = base().eval(G); acc = G.g.Point().Null() }); pan || B == nil {
+		return
+	}
+	var exprs []*pexp
+	for i := 1; i <= n && len(exprs) < 12; i++ {
+		var b []byte
+		if pan, _ := vh.Try(func() { acc = G.g.Point().Add(acc, B); b, _ = acc.MarshalBinary() }); pan || b == nil {
+			return
+		}
+		hit := false
+		for o := 0; o+16 <= len(b); o += 16 {
+			if (b[o] == 0 && o > 0) || (o+1 < len(b) && b[o+1] == 0 && b[o] != 0 && len(b)%16 == 1) {
+				hit = true
+			}
+		}
+		if hit || r.Intn(n) < 2 {
+			if hit {
+				g.rep.Dist("scan-zero-byte/" + G.name)
+			}
+			exprs = append(exprs, &pexp{op: "var", pt: acc.Clone(), d: big.NewInt(int64(i)), how: fmt.Sprintf("B added %d times", i)},
+				mulI(int64(i), base()))
+		}
+	}
+	if len(exprs) > 0 {
+		g.pointPool(G, r, exprs)
+	}
 }
 
 func firstLine(s string) string {
@@ -717,15 +1051,15 @@ func main() {
 	o := vh.ParseFlags()
 	rng := vh.NewRng(o.Seed)
 	rep := vh.NewReport("C03", o.Seed, o.Tier)
-	rep.Rule = "scalars, per implementation (ed25519, mod.Int for P-256/BN256/BN254/kilic/QR-512 and synthetic moduli in both byte orders, CIRCL, gnark): reduced values {0,1,q-1,small,2^k,edge-biased operands} reached via arithmetic/SetBytes/Neg/Pick/UnmarshalBinary -> MarshalBinary, UnmarshalBinary, re-encoding, Equal; MarshalTo onto a pre-filled writer; UnmarshalFrom through plain/one-byte/half readers with tails and truncated inputs; hex helpers (upper/lower case, tails, truncated). points, per group (edwards25519, 3 vartime curves, P-256, QR-512, G1/G2/GT of bn256, bn254, kilic, CIRCL, gnark): pools of values reached by different computation paths (Null, B-B, 0*B, q*B, B+B, 2B, -(q-2)B, kB three ways, picked/embedded/hashed points and their multiples, pairing outputs): partition by model logarithm = partition by bytes = partition by Equal. distinct = distinct canonical case text; non-trivial = non-zero value / pool of >= 2 points"
+	rep.Rule = "scalars, per implementation (ed25519, mod.Int for P-256/BN256/BN254/kilic/QR-512 and synthetic moduli in both byte orders, CIRCL, gnark): reduced values {0,1,q-1,small,2^k,edge-biased operands} reached via arithmetic/SetBytes/Neg/Pick/UnmarshalBinary -> MarshalBinary, UnmarshalBinary, re-encoding, Equal; MarshalTo onto a pre-filled writer; UnmarshalFrom through plain/one-byte/half readers with tails and truncated inputs; hex helpers (upper/lower case, tails, truncated). points, per group (edwards25519, 3 vartime curves, P-256, QR-512, G1/G2/GT of bn256, bn254, kilic, CIRCL, gnark): pools of values reached by different computation paths (Null, B-B, 0*B, q*B, B+B, 2B, -(q-2)B, kB three ways, picked/embedded/hashed points and their multiples, pairing outputs): partition by model logarithm = partition by bytes = partition by Equal; points with 1..31 (63) leading zero bytes in a coordinate, computed by the harness from the curve equations (P-256, BN256/BN254 G1, residue group, Ed25519 x3), decoded and re-encoded directly / after Neg / after arithmetic, byte-exact against the fixed-width layout model; multiples i*B by repeated addition selected for zero bytes at field starts; every reader-based helper driven with plain / one-byte / half / data+EOF (one chunk, single bytes) / empty-read readers. distinct = distinct canonical case text; non-trivial = non-zero value / pool of >= 2 points"
 	g := &gen{rep: rep, search: o.Search}
 	insts := sc.Instances()
-	nScalar, nPools := 1500, 4
+	nScalar, nPools, nCrafted, nScan := 1500, 4, 6, 200
 	if o.Thorough {
-		nScalar, nPools = 12000, 40
+		nScalar, nPools, nCrafted, nScan = 12000, 40, 60, 1500
 	}
 	if o.Search {
-		nScalar, nPools = nScalar*6, nPools*4
+		nScalar, nPools, nCrafted = nScalar*6, nPools*4, nCrafted*6
 	}
 	wsum := 0
 	for _, in := range insts {
@@ -753,8 +1087,12 @@ func main() {
 			n = (n + 1) / 2
 		}
 		for k := 0; k < n; k++ {
-			g.pointPool(G, r.Fork())
+			g.pointPool(G, r.Fork(), nil)
 		}
+		for k := 0; k < nCrafted; k++ {
+			g.craftedCase(G, r.Fork())
+		}
+		g.scanCase(G, r.Fork(), nScan)
 	}
 	if !o.Search {
 		cf := &vh.CaseFile{Header: "From Kyber Require Import Codec.EncSM Codec.EncRun.", Type: "case", Runner: "mismatches", Items: g.items}
